@@ -13,6 +13,7 @@ User data always goes through the real StickyAssignorUserDataV1 encoding
 (StickyPartitionAssignor._metadata) and the member metadata through
 ConsumerProtocolMemberMetadata.encode()/decode()."""
 import json
+import signal
 import logging
 import multiprocessing
 import os
@@ -167,12 +168,27 @@ def _install():
     E.balance = balance
 
 
+class NonTermination(Exception):
+    pass
+
+
+def _timeout(signum, frame):
+    raise NonTermination("assign() still running after 20 s of CPU time")
+
+
 def run_sticky(case, with_log=True):
     global LOG
     _install()
     LOG = {"assigns": [], "reassigns": [], "scores": []} if with_log else None
     try:
-        out = StickyPartitionAssignor.assign(make_cluster(case), sticky_metadata(case))
+        # CPU-time watchdog: assign() is a terminating function of its input (milliseconds on these sizes); a case
+        # still running after 20 s of CPU is reported as non-termination with the case as replay
+        signal.signal(signal.SIGVTALRM, _timeout)
+        signal.setitimer(signal.ITIMER_VIRTUAL, 20.0)
+        try:
+            out = StickyPartitionAssignor.assign(make_cluster(case), sticky_metadata(case))
+        finally:
+            signal.setitimer(signal.ITIMER_VIRTUAL, 0)
         res = {"out": conv_out(case, out)}
         if with_log:
             sc = LOG["scores"]
